@@ -450,6 +450,12 @@ pub fn recommended_registry_package_url_to_nv(
   let scope = parts.next()?;
   let name = parts.next()?;
   let version = parts.next()?;
+  let parsed_version = deno_semver::Version::parse_standard(version).ok()?;
+  // the version parser is lenient (it skips a leading `=` or `v`), but only
+  // the canonical text of a version names that version's url
+  if parsed_version.to_string() != version {
+    return None;
+  }
   Some(PackageNv {
     name: {
       capacity_builder::StringBuilder::<StackString>::build(|builder| {
@@ -459,7 +465,7 @@ pub fn recommended_registry_package_url_to_nv(
       })
       .unwrap()
     },
-    version: deno_semver::Version::parse_standard(version).ok()?,
+    version: parsed_version,
   })
 }
 
